@@ -6,6 +6,7 @@ import (
 	"errors"
 	"fmt"
 	"io"
+	"math/big"
 	"math/rand"
 
 	"github.com/oasisprotocol/ed25519"
@@ -21,6 +22,9 @@ func init() {
 	}
 	replayers["keyobj"] = func(rec *ev.Rec, c map[string]interface{}) bool {
 		return judgeKeyObject(rec, hexf(c, "seed"), int64(intf(c, "eseed")))
+	}
+	replayers["pubequal"] = func(rec *ev.Rec, c map[string]interface{}) bool {
+		return judgePublicEqual(rec, hexf(c, "a"), hexf(c, "b"))
 	}
 }
 
@@ -284,6 +288,21 @@ func judgeKeyObject(rec *ev.Rec, seed []byte, eseed int64) bool {
 			bad = "GenerateKey: appending to the private key " + w + " the public key"
 			return
 		}
+		// a caller may hand NewKeyFromSeed a window of a larger buffer and reuse
+		// the buffer afterwards: the key must not live in the caller's memory
+		buf := make([]byte, 32+64+int(eseed&31))
+		for i := range buf {
+			buf[i] = 0xa5
+		}
+		copy(buf[16:48], seed)
+		k4 := ed25519.NewKeyFromSeed(buf[16:48])
+		for i := range buf {
+			buf[i] = 0x3c
+		}
+		if !bytes.Equal(k4, k) || !bytes.Equal(k4.Seed(), seed) || !k4.Equal(k) {
+			bad = "the key returned by NewKeyFromSeed changed when the caller reused the buffer that held the seed (aliasing)"
+			return
+		}
 		k3 := ed25519.NewKeyFromSeed(seed)
 		p3 := k3.Public().(ed25519.PublicKey)
 		s3 := k3.Seed()
@@ -308,9 +327,68 @@ func judgeKeyObject(rec *ev.Rec, seed []byte, eseed int64) bool {
 	return false
 }
 
+// judgePublicEqual: PublicKey.Equal is byte equality for arbitrary 32-byte
+// strings, in particular for different encodings of the same point.
+func judgePublicEqual(rec *ev.Rec, a, b []byte) bool {
+	c := map[string]interface{}{"op": "pubequal", "a": ev.Hex(a), "b": ev.Hex(b)}
+	rec.About(c)
+	want := bytes.Equal(a, b)
+	bad := ""
+	pn := safe(func() {
+		pa, pb := ed25519.PublicKey(append([]byte(nil), a...)), ed25519.PublicKey(append([]byte(nil), b...))
+		if g1, g2 := pa.Equal(pb), pb.Equal(pa); g1 != want || g2 != want {
+			bad = fmt.Sprintf("PublicKey.Equal = %v/%v for %x and %x (byte-identical: %v)", g1, g2, a, b, want)
+		}
+	})
+	if pn != "" {
+		bad = "panic: " + pn
+	}
+	rec.Eval("public-equal")
+	rec.Nontrivial(a, b, []byte("pubequal"))
+	if bad != "" {
+		rec.Violate("key-object", bad, "pubequal", c)
+		return true
+	}
+	return false
+}
+
+// encodingFamily returns 32-byte strings among which several decode to the
+// same point: y and y+p for every y < 19, each with both sign bits (x = 0
+// makes the sign bit redundant for y = 1 and y = p-1), the 14 small-order
+// encodings, y = p-1 .. p-3.
+func encodingFamily() [][]byte {
+	var out [][]byte
+	for k := int64(0); k < 19; k++ {
+		for _, base := range []*big.Int{big.NewInt(k), new(big.Int).Add(ref.P, big.NewInt(k))} {
+			for sgn := byte(0); sgn < 2; sgn++ {
+				e := ref.LEBytes(base, 32)
+				e[31] |= sgn << 7
+				out = append(out, e)
+			}
+		}
+	}
+	for k := int64(1); k <= 3; k++ {
+		for sgn := byte(0); sgn < 2; sgn++ {
+			e := ref.LEBytes(new(big.Int).Sub(ref.P, big.NewInt(k)), 32)
+			e[31] |= sgn << 7
+			out = append(out, e)
+		}
+	}
+	return append(out, ref.SmallOrderEncodings()...)
+}
+
 func runC14(cfg *Cfg, rec *ev.Rec) {
 	rng := cfg.rng("c14")
 	item := 0
+	fam := encodingFamily()
+	for i := range fam {
+		for j := range fam {
+			if cfg.mine(item) {
+				judgePublicEqual(rec, fam[i], fam[j])
+			}
+			item++
+		}
+	}
 	// deterministic reader sweep
 	for _, rd := range []string{"exact", "long", "onebyte"} {
 		if cfg.mine(item) {
